@@ -1,6 +1,7 @@
 package main
 
 import (
+	"fmt"
 	"go/token"
 	"go/types"
 
@@ -214,7 +215,30 @@ func clAllocItemInitialises(c *Ctx) {
 }
 
 // C01.d epoch capture in NewSnapshot.
+// epoch numbers stamped into items, captured by snapshots and used as GC
+// frontier are compared with each other everywhere: one type for all of them
+func clEpochTypesAgree(c *Ctx) {
+	p := c.P
+	ref := p.Field("nitro", "Nitro", "currSn")
+	bad := ""
+	for _, f := range []*types.Var{p.Field("nitro", "Item", "bornSn"), p.Field("nitro", "Item", "deadSn"),
+		p.Field("nitro", "Snapshot", "sn"), p.Field("nitro", "Nitro", "lastGCSn")} {
+		if !types.Identical(f.Type(), ref.Type()) {
+			bad += fmt.Sprintf(" %s is %s;", f.Name(), f.Type())
+		}
+	}
+	b, ok := ref.Type().Underlying().(*types.Basic)
+	if !ok || b.Info()&types.IsInteger == 0 || b.Info()&types.IsUnsigned == 0 {
+		bad += fmt.Sprintf(" currSn is %s, not an unsigned integer;", ref.Type())
+	} else if sz := types.SizesFor("gc", "amd64").Sizeof(ref.Type()); sz < 4 {
+		bad += fmt.Sprintf(" currSn is only %d bytes wide;", sz)
+	}
+	c.Check(bad == "", p.Func("nitro", "Nitro", "NewSnapshot"), nil, "epoch numbers (Item.bornSn/deadSn, Snapshot.sn, Nitro.currSn, lastGCSn) share one unsigned type of at least 32 bits",
+		"currSn is "+ref.Type().String()+";"+bad+" the narrower number wraps first: visibility (bornSn <= sn < deadSn) and the in-order GC frontier compare numbers from different rounds")
+}
+
 func clEpochCapture(c *Ctx) {
+	clEpochTypesAgree(c)
 	p := c.P
 	fn := p.Func("nitro", "Nitro", "NewSnapshot")
 	fi := p.Info(fn)
